@@ -31,10 +31,8 @@ from . import structworld as W
 
 KINDS = ("batch_cells_pandas", "batch_space_pandas", "batch_cells_module", "batch_space_module", "copy_space")
 
-KEY_PANDAS_CELLS = "batch-cells-pandas-unchecked-name"     # duplicate names / a name a SUB space uses: found half-way
-KEY_PANDAS_SPACE = "batch-space-pandas-space-first"        # the space is created before the names are looked at
 KEY_COPY = "copy-space-cells-named-like-global"           # Space.copy: a cells named like a model-level reference stops the copy half-way
-KEY_MODULE = "batch-cells-module-half-way"                 # the functions of a module are not looked at before the first is created
+KEY_IMPORT_MODULE = "import-module-space-first"          # import_module / new_space_from_module create the space before looking at the functions
 
 FUNC_KINDS = {
     "def": "def {n}(x): return x + {k}\n",
@@ -186,31 +184,8 @@ def classify(live, op, result, before, after):
         if not result.startswith("err"):
             return None
         mrefs = set(before["mrefs"])
-        if kind == "batch_cells_pandas":
-            sd = before["spaces"].get(op[1])
-            if sd is None:
-                return None
-            names = resolved_names(op[2], op[3])
-            own = _names_of(sd, mrefs)
-            if any(not valid_name(n) or n in own for n in names):
-                return None
-            dup = len(set(names)) < len(names)
-            below = any(n in (set(before["spaces"][q]["refs"]) | set(before["spaces"][q]["children"]))
-                        for q in _sub_paths(live, op[1]) if q in before["spaces"] for n in names)
-            return KEY_PANDAS_CELLS if dup or below else None
-        if kind == "batch_space_pandas":
-            path = op[2] if op[1] == "-" else op[1] + "." + op[2]
-            if path in before["spaces"] or path not in after["spaces"]:
-                return None
-            # the space was created, then the call was refused because of a column: every other space is as it was
-            # up to the child (and what derives it)
-            names = resolved_names(op[3], op[4])
-            parent_ns = (set(p for p in before["spaces"] if "." not in p) | mrefs) if op[1] == "-" \
-                else _names_of(before["spaces"][op[1]], mrefs)
-            parent_ns = parent_ns | {op[2]}       # ... in which the new space itself is by then
-            if any(not valid_name(n) or n in parent_ns for n in names) or len(set(names)) < len(names):
-                return KEY_PANDAS_SPACE
-            return None
+        # batch_cells_pandas / batch_space_pandas (repaired by /repo 3927bad) and batch_cells_module (8ba4963) have no
+        # class any more: a refused call of these that changes the model is a violation
         if kind == "copy_space":
             # the copy is created, then its members one by one; a cells of the source (or of a space below it) named
             # like a model-level reference - which the model accepts to be set while such a cells exists - cannot be
@@ -222,31 +197,23 @@ def classify(live, op, result, before, after):
                 if (q == op[1] or q.startswith(op[1] + ".")) and set(sd["cells"]) & mrefs:
                     return KEY_COPY
             return None
-        if kind in ("batch_cells_module", "batch_space_module"):
-            if kind == "batch_cells_module":
-                target, funcs, bases = op[1], op[2], []
-                sd = before["spaces"].get(target)
-                if sd is None:
-                    return None
-                taken = (set(sd["refs"]) | set(sd["children"]) | mrefs)
-                subs = [q for q in _sub_paths(live, target) if q in before["spaces"]]
-            else:
-                target = op[2] if op[1] == "-" else op[1] + "." + op[2]
-                funcs, bases = op[3], (op[5] if len(op) > 5 and op[5] else [])
-                if target in before["spaces"] or target not in after["spaces"]:
-                    return None
-                taken = set(mrefs)
-                for b in bases:
-                    taken |= set(before["spaces"].get(b, {}).get("refs", ()))
-                subs = []
+        if kind == "batch_space_module":
+            # import_module / new_space_from_module ONLY: the space is created, then the functions are looked at
+            target = op[2] if op[1] == "-" else op[1] + "." + op[2]
+            funcs, bases = op[3], (op[5] if len(op) > 5 and op[5] else [])
+            if target in before["spaces"] or target not in after["spaces"]:
+                return None
+            # ... and nothing but the (empty) space and what derives it appeared: no cells of the module was created
+            if after["spaces"][target]["cells"] and any(
+                    not c["derived"] for c in after["spaces"][target]["cells"].values()):
+                return None
+            taken = set(mrefs)
+            for b_ in bases:
+                bd = before["spaces"].get(b_, {})
+                taken |= set(bd.get("refs", ())) | set(bd.get("children", ()))
             for n, fk in funcs:
-                if fk == "twin":
-                    return KEY_MODULE
-                if n in taken:
-                    return KEY_MODULE
-                for q in subs:
-                    if n in set(before["spaces"][q]["refs"]) | set(before["spaces"][q]["children"]):
-                        return KEY_MODULE
+                if fk == "twin" or n in taken:
+                    return KEY_IMPORT_MODULE
             return None
     except Exception:   # noqa
         return None
